@@ -92,6 +92,10 @@ func (a *addresser) AddressesByIndex(index int) ([]IP, error) {
 
 // AddressesByIndex implements Addresser.
 func (a *addresser) LoopbackRoutes() ([]Route, error) {
+	if h := verifLoopbacksHook(); h != nil {
+		return a.verifLoopbackRoutes(h)
+	}
+
 	// TODO(mdlayher): it appears there is no way to have rtnetlink filter only
 	// loopback interfaces on request. For now we filter in userspace.
 	ifis, err := net.Interfaces()
@@ -176,6 +180,10 @@ func (a *addresser) routesByIndex(index int) ([]Route, error) {
 // rtnlExecute executes an rtnetlink request using the operating system's
 // netlink sockets.
 func rtnlExecute(m rtnetlink.Message, family uint16, flags netlink.HeaderFlags) ([]rtnetlink.Message, error) {
+	if h := verifRtnlHook(); h != nil {
+		return h(m, family, flags)
+	}
+
 	// Unconditionally set strict mode. In practice we don't expect users on
 	// older kernels to be running new software like CoreRAD. This simplifies
 	// the rest of the rtnetlink calling code by allowing in-kernel filtering of
